@@ -180,7 +180,7 @@ def rule_wrap(ctx):
     ctx.ob("C03.WRAP", comp if comp is not None else w, "each awaited future is <session>[<field name>] (the presence future, not its value)", key_ok,
            "the guard does not await the session's presence futures", construct="wrapper:future lookup")
     # the aggregate that is awaited covers the whole collection, and the await is wait_for(shield(aggregate), timeout)
-    waits = [c for c in walk_no_nested(w) if isinstance(c, ast.Call) and (dotted(c.func) or "").endswith("wait_for")]
+    waits = [c for c in walk_no_nested(w) if isinstance(c, ast.Call) and (dotted(c.func) or "") in ("asyncio.wait_for", "wait_for")]
     ok = False
     for c in waits:
         arg = c.args[0] if c.args else None
